@@ -78,6 +78,17 @@ TrDeImage ==
        /\ gens' = (Ev.to :> [k |-> Ev.kind, s |-> s]) @@ gens
   /\ UNCHANGED srcs
 
+(* Default::default(), where a type has it, is a constructor like any other.  No property says which generator it is; *)
+(* what it must not be is the all-zero state of a linear engine (C07 / C08).  The state is adopted from its image.      *)
+TrDefault ==
+  /\ IsEvent("default_ctor") /\ NoPanic /\ Ev.kind \in AlgKinds
+  /\ IF Has(Ev, "ok") /\ Ev.ok /\ Has(Ev, "image") /\ Len(Ev.image) = AlgSeedLen(Ev.kind)
+     THEN /\ Ev.kind \in LinearKinds =>
+               Expect("Default::default() is the all-zero state of a linear engine", FALSE, AllZero(Ev.image))
+          /\ gens' = (Ev.g :> [k |-> Ev.kind, s |-> ResolveD(Ev.kind, <<"verbatim", Ev.image>>)]) @@ gens
+     ELSE gens' = [g \in (DOMAIN gens) \ {Ev.g} |-> gens[g]]
+  /\ UNCHANGED srcs
+
 TrSeedFromU64 ==
   /\ IsEvent("seed_from_u64") /\ NoPanic
   /\ Ev.kind \in AlgKinds
@@ -193,7 +204,7 @@ TrEq ==
 TrDrop == IsEvent("drop") /\ gens' = [g \in (DOMAIN gens) \ {Ev.g} |-> gens[g]] /\ UNCHANGED srcs
 
 Init == l = 1 /\ gens = <<>> /\ srcs = <<>>
-Next == \/ TrReset \/ TrFromSeed \/ TrFromSeedCore \/ TrGenerate \/ TrDeImage \/ TrSeedFromU64 \/ TrSrc \/ TrFromRng("from_rng") \/ TrFromRng("try_from_rng") \/ TrNext("next_u32") \/ TrNext("next_u64") \/ TrSmNext32
+Next == \/ TrReset \/ TrFromSeed \/ TrFromSeedCore \/ TrGenerate \/ TrDeImage \/ TrDefault \/ TrSeedFromU64 \/ TrSrc \/ TrFromRng("from_rng") \/ TrFromRng("try_from_rng") \/ TrNext("next_u32") \/ TrNext("next_u64") \/ TrSmNext32
         \/ TrJump("jump") \/ TrJump("long_jump") \/ TrEq \/ TrDrop
         \/ TrStatePath("next_u32") \/ TrStatePath("next_u64") \/ TrStatePath("fill_bytes")
 Spec == Init /\ [][Next]_vars
